@@ -130,6 +130,7 @@ class Contract:
         self.cython = kw.pop("cython", False)
         self.replay = kw.pop("replay", None)
         self.assumes = kw.pop("assumes", [])
+        self.opaque_calendar = kw.pop("opaque_calendar", False)
         if kw:
             raise TypeError(f"unknown contract keys {list(kw)}")
         self.requires = [(f"r{i}", c) if isinstance(c, str) else c for i, c in enumerate(self.requires)]
@@ -266,10 +267,14 @@ def to_real(e):
 
 
 def py_floordiv(a, b):
+    if z3.is_int_value(b) and b.as_long() > 0:
+        return a / b
     return z3.If(b > 0, a / b, (-a) / (-b))      # z3 int '/' is floor for a positive divisor
 
 
 def py_mod(a, b):
+    if z3.is_int_value(b) and b.as_long() > 0:
+        return a % b            # z3 mod = floor mod for a positive divisor
     return a - b * py_floordiv(a, b)
 
 
@@ -480,6 +485,8 @@ class Exec:
                 return z3.BoolVal(False)
             return z3.And(*[self.equal(x, y) for x, y in zip(T.tuple_items(a), T.tuple_items(b))])
         nums = (T.Int, T.Real, T.Bool)
+        if a.ty is T.Bool and b.ty is T.Bool:
+            return a.t == b.t
         if a.ty in nums and b.ty in nums:
             x, y = self.num(a), self.num(b)
             if z3.is_int(x) and z3.is_int(y):
@@ -820,6 +827,15 @@ class Exec:
                 return
         self.oblige(st, "safety", f"div0@{getattr(node, 'lineno', 0)}", y != 0, node, "ZeroDivisionError")
 
+    def cal_uf(self, st, name, secs):
+        """Opaque calendar component (contracts that do not depend on calendar arithmetic): an uninterpreted
+        function of the whole second, constrained only by its range."""
+        lo, hi = {"weekday": (0, 6), "hour": (0, 23), "minute": (0, 59)}[name]
+        fn = z3.Function("cal_" + name, z3.IntSort(), z3.IntSort())
+        t = fn(secs)
+        st.pc.append(z3.And(t >= lo, t <= hi))
+        return T.mk_int(t)
+
     # attribute access -------------------------------------------------------
     def ev_Attribute(self, node, st):
         base = self.ev(node.value, st)
@@ -837,6 +853,8 @@ class Exec:
             if not self.spec:
                 self.oblige(st, "safety", f"none-attr.{name}@{getattr(node, 'lineno', 0)}", z3.BoolVal(False), node)
             raise Unsupported(f"attribute {name} of None", node)
+        if ty is T.DT and self.c.opaque_calendar and name in ("hour", "minute"):
+            return self.cal_uf(st, name, real_floor(base.t))
         if ty is T.DT:
             secs = real_floor(base.t)
             sod = secs % 86400
